@@ -716,7 +716,17 @@ func (ctx Ctx) copyExpr(n ast.Node, dst ast.Expr, src ast.Expr) coq.Expr {
 		ctx.expr(dst), ctx.expr(src))
 }
 
+// names that callExpr recognizes by spelling
+var builtinCallNames = map[string]bool{
+	"make": true, "new": true, "len": true, "cap": true, "append": true,
+	"copy": true, "delete": true, "panic": true,
+	"uint64": true, "uint32": true, "uint8": true, "byte": true,
+}
+
 func (ctx Ctx) callExpr(s *ast.CallExpr) coq.Expr {
+	if f, ok := s.Fun.(*ast.Ident); ok && builtinCallNames[f.Name] && !ctx.goBuiltin(f) {
+		ctx.unsupported(s, "call of a user-defined %s, which has the name of a builtin", f.Name)
+	}
 	if isIdent(s.Fun, "make") {
 		return ctx.makeExpr(s.Args)
 	}
@@ -1101,7 +1111,10 @@ func (ctx Ctx) coqRecurFunc(fullFuncName string, e *ast.Ident) coq.Expr {
 	if ctx.pkgPath != obj.Pkg().Path() {
 		return coq.GallinaIdent(fullFuncName)
 	}
-	fun := obj.(*types.Func)
+	fun, ok := obj.(*types.Func)
+	if !ok {
+		ctx.unsupported(e, "call of %s, which is not a declared function or method", e.Name)
+	}
 
 	if fun.Scope().Contains(e.Pos()) {
 		return coq.GallinaString(fullFuncName)
@@ -1601,6 +1614,9 @@ func (ctx Ctx) varDeclStmt(s *ast.DeclStmt) coq.Binding {
 	}
 	if len(decl.Specs) > 1 {
 		ctx.unsupported(s, "multiple declarations in one var statement")
+	}
+	if len(decl.Specs) == 0 {
+		ctx.unsupported(s, "empty var declaration")
 	}
 	// guaranteed to be a *Ast.ValueSpec due to decl.Tok
 	//
@@ -2236,6 +2252,9 @@ func (ctx Ctx) maybeDecls(d ast.Decl) []coq.Decl {
 		case token.TYPE:
 			if len(d.Specs) > 1 {
 				ctx.noExample(d, "multiple specs in a type decl")
+			}
+			if len(d.Specs) == 0 {
+				return nil
 			}
 			spec := d.Specs[0].(*ast.TypeSpec)
 			ctx.dep.addName(spec.Name.Name)
